@@ -73,11 +73,11 @@ def check(ctx, src):
     v1, c1 = boolfn.equivalent(r_obj, loop, AT, lambda e: e["I"] and e["K"])
     v2, c2 = boolfn.equivalent(r_tree, loop, AT, lambda e: e["I"] and not e["K"])
     ok_names = all(isinstance(r.value, ast.Name) for r in rets_in)
-    ctx.decide("MX-LOOP", f"{MC}|macroexpand|result", None if (v1 is None or v2 is None) else (v1 and v2 and ok_names),
+    ctx.decide_tt("MX-LOOP", f"{MC}|macroexpand|result", None if (v1 is None or v2 is None) else (v1 and v2 and ok_names),
                f"a compiler Result must be returned only when result_ok, else the tree as expanded so far (the loop variable `{tv}`); found returns of {[norm(r.value) for r in rets_in]}", MC, loop.lineno, detail="obj if result_ok else tree")
     rebind = pyq.contains(loop, lambda n: isinstance(n, ast.Assign) and isinstance(n.targets[0], ast.Name) and n.targets[0].id == tv and isinstance(n.value, ast.Call) and dotted(n.value.func) == "replace_hy_obj")
     final = f.body[-1]
-    ctx.decide("MX-LOOP", f"{MC}|macroexpand|rebinding", rebind is not None and isinstance(final, ast.Return) and isinstance(final.value, ast.Name) and final.value.id == tv,
+    ctx.decide_tt("MX-LOOP", f"{MC}|macroexpand|rebinding", rebind is not None and isinstance(final, ast.Return) and isinstance(final.value, ast.Name) and final.value.id == tv,
                f"each expansion must be stored back into `{tv}`, which is what the loop tests, what a core macro leaves unchanged, and what is returned (the function ends with `{norm(final)}`)", MC, loop.lineno,
                witness="(hy.macroexpand '(m0 5)) where m0 expands into a core form returns the original '(m0 5)", detail="tree = replace_hy_obj(obj, tree) … return tree")
     head = pyq.contains(loop, lambda n: isinstance(n, ast.Subscript) and isinstance(n.value, ast.Name) and n.value.id == tv and norm(n.slice) == "0")
